@@ -7,6 +7,8 @@
 name: find_short_option
 define: U_FIND_SHORT
 src: options.c
+native: options
+native_includes: options.c
 enforce: find_short_option
 giflags: --restrict-function-pointer find_short_option.function_pointer_call.1/vopt_help
 backend: sat
@@ -17,6 +19,8 @@ timeout: 120
 name: find_short_option.nul
 define: U_FIND_SHORT, U_NUL
 src: options.c
+native: options
+native_includes: options.c
 enforce: find_short_option
 giflags: --restrict-function-pointer find_short_option.function_pointer_call.1/vopt_help
 backend: sat
@@ -27,6 +31,8 @@ timeout: 120
 name: find_long_option
 define: U_FIND_LONG, VOPT_UNREGISTERED_STRINGS_ASSUMED
 src: options.c
+native: options
+native_includes: options.c
 enforce: find_long_option
 giflags: --restrict-function-pointer find_long_option.function_pointer_call.1/vopt_help
 backend: sat
